@@ -38,12 +38,12 @@ import (
 )
 
 var (
-	prop   = flag.String("prop", "C20", "")
-	tier   = flag.String("tier", "quick", "")
-	seed   = flag.Int64("seed", 1, "")
-	batch  = flag.Int("batch", 0, "")
-	nbatch = flag.Int("nbatch", 1, "")
-	replay = flag.String("replay", "", "")
+	prop       = flag.String("prop", "C20", "")
+	tier       = flag.String("tier", "quick", "")
+	seed       = flag.Int64("seed", 1, "")
+	batch      = flag.Int("batch", 0, "")
+	nbatch     = flag.Int("nbatch", 1, "")
+	replay     = flag.String("replay", "", "")
 	cpuprofile = flag.String("cpuprofile", "", "")
 )
 
@@ -158,15 +158,15 @@ type leak struct {
 }
 
 type expect struct {
-	kind       string // call | push
-	route      string
-	meta       []wire.KV
-	pipe       []byte
-	codec      byte
-	body       []byte
-	sessID     string
-	sessDirty  bool // the session-level swap entry is legitimately visible
-	http       bool
+	kind      string // call | push
+	route     string
+	meta      []wire.KV
+	pipe      []byte
+	codec     byte
+	body      []byte
+	sessID    string
+	sessDirty bool // the session-level swap entry is legitimately visible
+	http      bool
 }
 
 // noDeadline: at the header hook nothing has given this request a deadline yet (no session age is configured)
@@ -175,8 +175,6 @@ func deadlineLeak(rec *probeRec, ctx erpc.ReadCtx) {
 		rec.leaks = append(rec.leaks, leak{"context-deadline", "seen-at-header-hook", fmt.Sprintf("Context() already carries a deadline (%v from now) before the request was dispatched", time.Until(d).Round(time.Minute))})
 	}
 }
-
-
 
 type probeRec struct {
 	exp       expect
